@@ -249,10 +249,12 @@ def normalize_url(
         string: The normalized url.
 
     """
-    original_url_arg = url
-
     if infer_redirection:
         url = resolve(url)
+
+    # NOTE: what is returned as is when the url cannot be parsed: an inferred
+    # redirection is followed even then
+    original_url_arg = url
 
     url = CONTROL_CHARS_RE.sub("", url)
     url = url.strip()
